@@ -8,7 +8,7 @@ PROP = {
                    "WasFull rule, search-bound encoder, capacity rule) and universally quantified over the hash function: lookup = membership under "
                    "the placement invariant, every operation preserves the invariant and refines the abstract map, traversal visits each element "
                    "once. The model is run against the real containers for all bucket types on every check and must reproduce results, counts, "
-                   "capacities, generations and the complete bucket layout (items in storage order, WasFull flags, search bounds)."),
+                   "capacities, generations and the complete bucket layout (items in storage order, WasFull flags, search bounds). GetStartBucketIndex, the four GetNextBucketIndex variants, BucketBase::GetMaxProbe, GetBucketCountShift (base and open-addressing), HashBucketBase::CalcCapacity (integer branches; the one floating-point expression stays an uninterpreted parameter) and HashSet::pvGetNewLogBucketCount are additionally TRANSLATED from the header text on every run (tools/translate.py, tools/trspecs/HashProbe.py) and proved equal to the model's start / nextIdx / maxProbe / shiftOf / newLog / capacityOf; the model's slot search is the probe loop over the translated functions (C01_*_translated)."),
     "level_note": ("Trusted: Lean kernel + 3 standard axioms, extractor, harness (g++, -fno-access-control). Modelled not verified: item layout and "
                    "alignment inside buckets, memcpy relocation, short-hash bytes (C12), SSE2 in-bucket search of Open8, float capacity formulas "
                    "(modelled as exact rational floor; compared at every growth)."),
@@ -25,6 +25,9 @@ PROP = {
         "Momo.HT.run_refines_partial",
         "Momo.HT.C01_history_partial",
         "Momo.HT.C01_copy_fits",
+        "Momo.HT.C01_probe_path_translated",
+        "Momo.HT.C01_slot_search_translated",
+        "Momo.HT.C01_growth_translated",
         "Momo.HT.unrestricted_faults_counterexample",
         "Momo.HT.C01_history_full_false",
     ],
